@@ -11,6 +11,9 @@ import MJ.Proofs.SerdeValue
 import MJ.Proofs.SerdeArg
 import MJ.Proofs.SerdeMethods
 import MJ.Proofs.SerdeBuf
+import MJ.Proofs.SerdeDispatch
+import MJ.Proofs.JsonFloatRT
+import MJ.Proofs.SerdeContent
 /-!
 # C16 — values round-trip through serde; `tojson` emits valid, HTML-safe JSON
 
@@ -252,7 +255,7 @@ theorem tojson_parses_back_full (v : V) (st : Style) (j : J) (hff : floatFreeV v
 /-- with finite floats as well: the float printer (`f64Text`, ryu's shortest round-trip text laid
 out by `format64`) always yields a JSON number token, so the document reads back with that very
 token.  (That the token *denotes* the same double is checked bit-exactly by the differential run
-against Python's correctly rounded reader, not proved.) -/
+against Python's correctly rounded reader; proved since session 4: `float_token_roundtrip` below.) -/
 theorem float_text_is_json_number (bits : Nat) : tokOK (f64Text bits) := tokOK_f64Text bits
 
 theorem tojson_parses_back_all (v : V) (st : Style) (j : J) (hj : jsonOf v = .ok j) :
@@ -544,6 +547,121 @@ theorem serde_arms_as_modelled :
 theorem arg_conversion_as_modelled :
     MJ.Gen.serdeArgTypeAsModelled = true ∧ MJ.Gen.optionArgTypeAsModelled = true := ⟨rfl, rfl⟩
 
+/-! ## (14) the deserializer looks at the value, not at its storage -/
+
+open MJ.SerdeDispatch in
+/-- `deserialize_any`, `_option`, `_enum`, `_unit_struct`, `_newtype_struct` and the four variant accesses
+(`unit_variant`, `newtype_variant_seed`, `tuple_variant`, `struct_variant`), read arm by arm from
+deserialize.rs as it is now (`SERDE_DE_DISPATCH`: a Rust `match` takes the first arm whose pattern
+selects the source), do on each of the 16 representations — and on the absent payload of a variant —
+exactly what the dispatch written by kind (`spec`) says; `Value::kind()` knows every representation and
+gives representations of one serde-visible kind one kind.  An arm keyed on `SmallStr` without `String`,
+on `U64` without … or guarded by anything but the object's `repr()` fails this. -/
+theorem deserializer_dispatch_as_modelled :
+    (∀ fn ∈ valueFns, ∀ r : Repr, resolve (armsOf fn) (.val r) = spec fn (some r.skind)) ∧
+    (∀ fn ∈ variantFns, ∀ s : Src, resolve (armsOf fn) s = spec fn s.skind) ∧
+    (∀ r : Repr, (kindName r).isSome = true) ∧ kindsMatch = true :=
+  ⟨value_fn_resolves, variant_fn_resolves, kind_total, kinds_match⟩
+
+open MJ.SerdeDispatch in
+/-- two representations of one kind — a small string and a heap or safe string, none and undefined — are
+dispatched alike by every function of deserialize.rs that matches on its source -/
+theorem deserializer_dispatch_is_by_kind (fn : String) (h : fn ∈ valueFns ++ variantFns) (r1 r2 : Repr)
+    (hk : r1.skind = r2.skind) : resolve (armsOf fn) (.val r1) = resolve (armsOf fn) (.val r2) :=
+  dispatch_by_kind fn h r1 r2 hk
+
+open MJ.SerdeDispatch in
+example : resolve (armsOf "Value::deserialize_enum") (.val .smallStr) = some "variant_is_self" ∧
+    resolve (armsOf "Value::deserialize_enum") (.val .string) = some "variant_is_self" ∧
+    resolve (armsOf "Value::deserialize_enum") (.val .u64) = some "err" ∧
+    resolve (armsOf "Variant::tuple_variant") (.val .objIterable) = some "err" ∧
+    resolve (armsOf "Variant::tuple_variant") (.val .objSeq) = some "seq_any" ∧
+    resolve (armsOf "Variant::unit_variant") .absent = some "ok_unit" := by decide +kernel
+
+open MJ.SerdeDispatch in
+/-- the probe model (every trait method on every kind, run against the real code by the `rk` stream): a unit
+variant named by a string of either storage, a tuple variant from a single-entry map, an option from none -/
+example : probe "enum:unit" Repr.smallStr.skind (.str "Ab".toList false) = some "enum(str:4162;unit:ok)" ∧
+    probe "enum:unit" Repr.string.skind (.str "Ab".toList false) = some "enum(str:4162;unit:ok)" ∧
+    probe "enum:tuple" .map (.map [(.str "V".toList false, .seq false [.int true 1, .none])]) = some "enum(str:56;seq[u64:1,unit])" ∧
+    probe "option" .unit .undefined = some "unit" ∧ probe "u8" .i128 (.int false 4) = some "i128:4" ∧
+    probe "i128" .i64 (.int false 4) = none := by decide +kernel
+
+/-! ## (15) the digits of a float token lie in the double's rounding interval -/
+
+/-- `shortestDec` (the digits and exponent `f64Text` lays out) is, for EVERY finite non-zero double, a decimal
+inside the rounding interval of the double — between the midpoints to its neighbours, the lower one at half
+distance for a power of two, end points included exactly when the significand is even — so a correctly rounded
+(round-to-nearest-even) reader of `d·10^k` gives the double back.  (The exact search always stops at a
+candidate: `f64Found_all`.) -/
+theorem float_digits_read_back (bits : Nat) (hfin : f64Finite bits = true)
+    (hnz : bits % 9223372036854775808 ≠ 0) : ReadsBack bits (shortestDec bits).1 (shortestDec bits).2 :=
+  shortestDec_reads_back_all bits hfin hnz
+
+/-- the digit search never runs out of steps -/
+theorem float_digit_search_terminates (bits : Nat) (hfin : f64Finite bits = true)
+    (hnz : bits % 9223372036854775808 ≠ 0) : f64Found bits = true := by
+  apply f64Found_all
+  · simpa [f64Finite] using hfin
+  · omega
+
+-- 0.1, 2^-1074 (the smallest subnormal), the largest double, 2^53: the search stops, and the digits are the known ones
+example : f64Found 4591870180066957722 = true ∧ shortestDec 4591870180066957722 = (1, -1) ∧
+    f64Found 1 = true ∧ shortestDec 1 = (5, -324) ∧
+    f64Found 9218868437227405311 = true ∧ shortestDec 9218868437227405311 = (17976931348623157, 292) ∧
+    f64Found 4845873199050653696 = true ∧ shortestDec 4845873199050653696 = (9007199254740992, 0) := by
+  decide +kernel
+
+-- 0.3 is not in the rounding interval of the double 0.1 + 0.2 (bits 4599075939470750516): the statement is not vacuous
+example : ¬ ReadsBack 4599075939470750516 3 (-1) ∧ ReadsBack 4599075939470750516 30000000000000004 (-17) := by
+  decide +kernel
+
+/-- **the printed float token denotes the same double** (all finite doubles, ±0 included): `f64Text bits` is the
+double's sign followed by a body that an independent digit-by-digit reader (`readTok`: integer part, fraction,
+exponent) evaluates to a decimal inside the double's rounding interval — so every correctly rounded reader
+returns the double (`float_token_reads_back`).  Rests on the transcription of ryu's output into `shortestDec` /
+`layoutF` (validated: every float text is predicted character for character), no longer on a reader run. -/
+theorem float_token_roundtrip (bits : Nat) (hfin : f64Finite bits = true) :
+    ∃ body, f64Text bits = (if bits / 9223372036854775808 % 2 = 1 then ['-'] else []) ++ body ∧
+      ((bits % 9223372036854775808 ≠ 0 ∧
+          ∃ d k, sameDec (readTok body).1 (readTok body).2 d k ∧ ReadsBack bits d k) ∨
+        (bits % 9223372036854775808 = 0 ∧ (readTok body).1 = 0)) :=
+  f64Text_denotes bits hfin
+
+-- 0.1 + 0.2 prints as 0.30000000000000004, which the reader evaluates to 30000000000000004·10^-17; 1e21 prints
+-- with an exponent; -0.0 keeps its sign
+example : f64Text 4599075939470750516 = "0.30000000000000004".toList ∧
+    readTok "0.30000000000000004".toList = (30000000000000004, -17) ∧
+    f64Text 4921056587992461136 = "1e21".toList ∧ readTok "1e21".toList = (1, 21) ∧
+    readTok "1.7976931348623157e308".toList = (17976931348623157, 292) ∧
+    f64Text 9223372036854775808 = "-0.0".toList := by decide +kernel
+
+/-! ## (16) serde's `Content` buffer -/
+
+open MJ.SerdeDispatch in
+/-- whatever `Content::deserialize(value)` (untagged / internally / adjacently tagged enums, flatten) manages to
+buffer — every value without invalid values, dynamic objects and 128-bit integers, dispatched by kind like
+`deserialize_any` — shows a later visitor exactly the normal form `normV` of the value: none for undefined, no
+safe flag, lists for tuples -/
+theorem content_buffer_is_normal_form (v : V) (c : Content) (h : toContent v = some c) : ofContent c = normV v :=
+  ofContent_toContent v c h
+
+open MJ.SerdeDispatch in
+/-- so a datum comes back through the buffer: reading the buffered copy of its serialisation with the visitor of
+its shape gives the datum -/
+theorem content_buffer_roundtrip (s : Shape) (d : D) (c : Content) (hwf : wf s d = true)
+    (h : toContent (ser s d) = some c) : de s (ofContent c) = .ok d := by
+  rw [ofContent_toContent _ c h]
+  exact buffered_roundtrip s d hwf
+
+open MJ.SerdeDispatch in
+example : toContent (.map [(.str "a".toList true, .seq true [.undefined, .int true 7])]) =
+      some (.map [(.str "a".toList, .seq [.unit, .u64 7])]) ∧
+    ofContent (.map [(.str "a".toList, .seq [.unit, .u64 7])]) =
+      .map [(.str "a".toList false, .seq false [.none, .int true 7])] ∧
+    toContent (.seq false [.int false 170141183460469231731687303715884105727]) = none :=
+  ⟨by rfl, by rfl, by rfl⟩
+
 /-- the full statement holds for the model -/
 theorem c16_full : C16_full :=
   ⟨de_ser_roundtrip, value_embedding_identity, value_embedding_in_context, registry_remove_insert,
@@ -552,5 +670,81 @@ theorem c16_full : C16_full :=
    tojson_parses_back_all, de_total_classification, serialize_contract, engine_json_end_to_end,
    serialization_flag_restored, tojson_alphabet_bytes, buffered_roundtrip, arg_roundtrip,
    value_target_keeps_json_image⟩
+
+/-! ## the property about the code, with the gap between it and the model named
+
+`c16_full` is about the model.  What the property says about `/repo` follows from it under the ties below,
+each of which names how the check establishes it (a regenerated table with a theorem over it, a
+correspondence stream, or validation only). -/
+
+/-- the entry points the property observes, as functions of the code under test -/
+structure Impl where
+  /-- `Value::from(Serde(x))` for `x` of a type of shape `s` holding `d` -/
+  toValue : Shape → D → V
+  /-- `T::deserialize(value)` (owned or borrowed) for a type of shape `s` -/
+  fromValue : Shape → V → R D
+  /-- the text `{{ v|tojson }}` / `tojson(indent)` renders in a formatter style (`none`: the filter fails) -/
+  tojsonText : Style → V → Option (List Char)
+  /-- the text `{{ v }}` renders under JSON auto-escaping -/
+  autoescapeText : V → Option (List Char)
+
+/-- what ties the code to the model -/
+structure Ties (I : Impl) : Prop where
+  /-- `ValueSerializer` builds what `ser` builds.  Checked: streams `rt` / `x` / `buf` / `arg` compare the
+  serialised value of every case with `ser`; tables `SERDE_METHODS`, `SERDE_ARMS` (`all_serde_methods_modelled`,
+  `serde_arms_as_modelled`). -/
+  ser_as_model : ∀ s d, wf s d = true → I.toValue s d = ser s d
+  /-- the deserializer, driven by the visitor serde derives for the shape, answers what `de` answers on
+  serialised data.  Checked: streams `rt` / `x` / `lde` / `rk` (every trait method on every representation);
+  tables `SERDE_DE_DISPATCH` (`deserializer_dispatch_as_modelled`), `SERDE_METHODS`, `SERDE_ARMS`. -/
+  de_as_model : ∀ s d, wf s d = true → I.fromValue s (ser s d) = de s (ser s d)
+  /-- serde_json's writer with the engine's formatter, post-processed by the filter, emits `tojson (writeJ st j)`
+  for a value with JSON image `j`.  Checked: stream `json` predicts every emitted text character for character
+  (29 entry points, both map builds); tables `TOJSON_REPLACEMENTS`, `JINJA_JSON_SEPARATORS`, `SERDE_JSON_ESCAPE`,
+  `SERDE_JSON_COMPOUND`, `VALUE_SERIALIZE_LENGTHS` (`source_tie`). -/
+  tojson_as_model : ∀ st v j, jsonOf v = .ok j → I.tojsonText st v = some (tojson (writeJ st j))
+  /-- JSON auto-escaping emits the compact text unprocessed.  Checked: stream `json`, modes `auto_*`. -/
+  autoescape_as_model : ∀ v j, jsonOf v = .ok j → I.autoescapeText v = some (writeJ .compact j)
+
+/-- **C16 about the code.**  Under the ties: (a) every well-formed datum of every shape comes back from its
+template value; (b) `tojson`, in every formatter style, emits text that an independent strict JSON reader reads
+back as the value's JSON image, and the text contains none of `< > & '`; (c) so does JSON auto-escaping (apart
+from the alphabet); (d) with a correctly rounded reader of number tokens, a finite double printed inside any
+such text is read as the same double (`CorrectlyRounded` is the specification of the reader, which is not part
+of the engine: sign, then a body whose digits denote a decimal inside the double's rounding interval). -/
+theorem C16_main (I : Impl) (T : Ties I) (readNumber : List Char → Option Nat)
+    (hreader : CorrectlyRounded readNumber) :
+    (∀ s d, wf s d = true → I.fromValue s (I.toValue s d) = .ok d) ∧
+    (∀ st v j, jsonOf v = .ok j → ∃ t, I.tojsonText st v = some t ∧ parseJ t = some j ∧
+        ∀ c ∈ t, c ≠ '<' ∧ c ≠ '>' ∧ c ≠ '&' ∧ c ≠ '\'') ∧
+    (∀ v j, jsonOf v = .ok j → ∃ t, I.autoescapeText v = some t ∧ parseJ t = some j) ∧
+    (∀ bits, bits < 18446744073709551616 → f64Finite bits = true →
+        ∃ t, jsonOf (.f64 bits) = .ok (.num t) ∧ readNumber t = some bits) := by
+  refine ⟨?_, ?_, ?_, ?_⟩
+  · intro s d h
+    rw [T.ser_as_model s d h, T.de_as_model s d h]
+    exact de_ser_roundtrip s d h
+  · intro st v j hj
+    exact ⟨_, T.tojson_as_model st v j hj, (tojson_parses_back_all v st j hj).1,
+      fun c hc => tojson_alphabet _ c hc⟩
+  · intro v j hj
+    exact ⟨_, T.autoescape_as_model v j hj, (tojson_parses_back_all v .compact j hj).2⟩
+  · intro bits hlt hb
+    exact ⟨f64Text bits, by simp only [jsonOf, hb, if_true], float_token_reads_back readNumber hreader bits hlt hb⟩
+
+/-- the model itself is an implementation that satisfies the ties (they are not contradictory) -/
+def modelImpl : Impl where
+  toValue := ser
+  fromValue := de
+  tojsonText st v := match jsonOf v with
+    | .ok j => some (tojson (writeJ st j))
+    | _ => none
+  autoescapeText v := match jsonOf v with
+    | .ok j => some (writeJ .compact j)
+    | _ => none
+
+example : Ties modelImpl :=
+  ⟨fun _ _ _ => rfl, fun _ _ _ => rfl,
+   fun st v j hj => by simp only [modelImpl, hj], fun v j hj => by simp only [modelImpl, hj]⟩
 
 end MJ.C16
